@@ -135,7 +135,7 @@ def _ival(n, env, lets, depth=0):
         if v is not None:
             return v
     if k == "lit" and "int" in n["v"]:
-        return n["v"]["int"]
+        return int(n["v"]["int"])          # (values beyond i64 are carried as strings in the fact files)
     if k == "path" and "def" in n["res"] and re.search(r"::(MAX|MIN|BITS)$", n["res"]["def"]) and env.get("__ty__") is not None:
         nm = env["__ty__"](n.get("t")) or ""
         m_ = re.fullmatch(r"([ui])(8|16|32|64|size)", nm)
@@ -187,7 +187,10 @@ def _ival(n, env, lets, depth=0):
         return a + b if n["op"] == "+" else a - b if n["op"] == "-" else a * b
     if k == "bin" and n["op"] in ("&", "|", "^", "<<", ">>"):
         a, b = _ival(n["l"], env, lets, depth + 1), _ival(n["r"], env, lets, depth + 1)
-        return {"&": a & b, "|": a | b, "^": a ^ b, "<<": a << b, ">>": a >> b}[n["op"]]
+        if n["op"] in ("<<", ">>") and not (0 <= b <= 4096):
+            raise _NoEval("shift by %d" % b)
+        op_ = n["op"]
+        return a & b if op_ == "&" else a | b if op_ == "|" else a ^ b if op_ == "^" else a << b if op_ == "<<" else a >> b
     if k == "call" and re.search(r"cmp::(min|max)$", n.get("fn") or "") and len(n.get("args") or []) == 2:
         a, b = _ival(n["args"][0], env, lets, depth + 1), _ival(n["args"][1], env, lets, depth + 1)
         return min(a, b) if n["fn"].endswith("min") else max(a, b)
@@ -261,7 +264,7 @@ def _bval(n, env, lets, depth=0):
             for nm_, a_ in zip(pn, n["args"]):
                 env2[nm_] = _ival(a_, env, lets, depth + 1)
             return _bval(body, env2, {}, depth + 1)
-    if k in ("field", "mcall", "path") and env.get("__bleaf__") is not None:
+    if k in ("field", "mcall", "path", "call") and env.get("__bleaf__") is not None:
         v = env["__bleaf__"](hirq.render(n))
         if v is not None:
             return bool(v)
@@ -858,4 +861,48 @@ def _attr_maintenance_rule(ctx, mpq):
                     "the stored file holds fewer entries: parsing fails as too small and a fresh table with empty checksums replaces it — every unmodified file ends with CRC32 0 and the MD5 column is dropped")
         else:
             ctx.ok(R, {"parsed_with": leaves[:3]})
+
+
+def exec_lets(block, env, skip=()):
+    """straight-line interpretation of a function body's `let` statements under env (mutated): bind and tuple patterns, initialisers
+    that are integer expressions, `if`/block expressions yielding integers or tuples.  Statements that cannot be evaluated are
+    skipped (their names stay undefined and raise _NoEval if used later).  Returns the value of the tail expression if it is
+    evaluable (int or tuple), else None."""
+    def val(e, env_):
+        e = hirq.strip(e)
+        k = e.get("k")
+        if k == "tup":
+            return tuple(val(x, env_) for x in e["es"])
+        if k == "if" and e.get("else") is not None:
+            return val(e["then"] if _bval(e["c"], env_, {}) else e["else"], env_)
+        if k == "block":
+            env2 = dict(env_)
+            r = exec_lets(e, env2)
+            if r is None:
+                raise _NoEval("block without value")
+            return r
+        return _ival(e, env_, {})
+    blk = hirq.strip(block)
+    stmts = blk.get("stmts") or [] if blk.get("k") == "block" else []
+    for st in stmts:
+        if st.get("k") != "let" or st.get("init") is None:
+            continue
+        pat = st["pat"]
+        try:
+            v = val(st["init"], env)
+        except _NoEval:
+            continue
+        if pat.get("k") == "bind" and pat["name"] not in skip:
+            env[pat["name"]] = v
+        elif pat.get("k") == "tuple" and isinstance(v, tuple):
+            for sub, x in zip(pat.get("subs") or [], v):
+                if sub.get("k") == "bind":
+                    env[sub["name"]] = x
+    tail = blk.get("e") if blk.get("k") == "block" else blk
+    if tail is None:
+        return None
+    try:
+        return val(tail, env)
+    except _NoEval:
+        return None
 
